@@ -126,6 +126,10 @@ def iqr_z(d):
     if np.isclose(s, 0):
         s = 1.0
     med = float(np.median(d))
+    if s == 1.0 and np.all(d == np.rint(d)) and med == np.rint(med) and np.abs(d).max() < 2**22:
+        # integer-valued differences and the unit-scale fallback: z is an exact integer in any precision, so a z that
+        # EQUALS the threshold is decidable (it is not beyond it).  Marked by a negative uncertainty.
+        return d - med, np.full(d.shape, -1.0)
     return (d - med) / s, 2 * EPS32 * (np.abs(d) + abs(med)) / s
 
 
@@ -135,7 +139,7 @@ def mask_bounds(zs, thr, band=2e-4):
     may = np.zeros(len(zs[0][0]), bool)
     for z, unc in zs:
         a = np.abs(z)
-        tol = band * (1 + a) + unc
+        tol = np.where(unc < 0, 0.0, band * (1 + a) + np.maximum(unc, 0.0))  # exact z: no ambiguity band
         must |= a > thr + tol
         may |= a > thr - tol
     return must, may
@@ -158,6 +162,8 @@ def iqrm_bounds(x, thr, radius=5):
         q25, q75 = np.percentile(np.asarray(d, dtype=np.float64), [25, 75])
         sc = (q75 - q25) / _NORM_IQR
         sc = 1.0 if np.isclose(sc, 0) else sc
-        unc = unc + 2 * EPS32 * (np.abs(x.astype(np.float64)) + np.abs(x[j].astype(np.float64))) / sc
+        exact = bool(np.all(unc < 0)) and bool(np.all(np.asarray(x, dtype=np.float64) == np.rint(np.asarray(x, dtype=np.float64))))
+        if not exact:
+            unc = np.maximum(unc, 0.0) + 2 * EPS32 * (np.abs(x.astype(np.float64)) + np.abs(x[j].astype(np.float64))) / sc
         zs.append((z, unc))
     return mask_bounds(zs, thr)
